@@ -7,6 +7,7 @@ import AnyVecModel.Proofs.Vec
 import AnyVecModel.Proofs.KernelCap
 import AnyVecModel.Proofs.KernelDelegCap
 import AnyVecModel.Props.Refine
+import AnyVecModel.Props.RefineMulti
 namespace AnyVec
 namespace C10
 variable {bg : Nat → Option VecSt}
@@ -298,6 +299,44 @@ theorem capacity_history_refines (cfg : Cfg) (v ty : Nat) (ops : List Refine.VOp
     (h : Refine.Rel bg v ty w s) (hall : ∀ op ∈ ops, op.Allowed s.fixed) :
     ∃ s', Refine.Spec.Steps s ops s' ∧ Refine.Rel bg v ty (Refine.runOps cfg v ty w ops) s' :=
   Refine.history_refines cfg v ty ops w s h hall
+
+/-! ### `with_capacity` against the abstract state of all vectors (Props/RefineMulti.lean) -/
+
+/-- **`with_capacity(n)` gives an empty vector of capacity exactly `n`, or nothing**: in any world that shows an abstract
+state of all its vectors (every fault-free reachable world does), `AnyVec::with_capacity_in(n, ..)` on a growable storage
+leads to a world that shows the same state plus one new last vector - empty, of the requested element type and trait set,
+growable, with capacity *exactly* `n` (also for `n = 0` and for zero-sized elements) - and the call returns; or the
+request cannot be met (`n` elements exceed what a layout can describe): the call panics and the world shows the same
+state plus a *released* vector (`none`): the half-built storage is given back, no destructor runs, no identity is made.
+Nothing else changes either way. -/
+theorem with_capacity_refines (cfg : Cfg) (w : World) (ms : RefineMulti.MSpec) (h : RefineMulti.MRel w ms) (ty : Nat)
+    (bk : Backend) (cl : Bool) (n : Nat) (hr : VecSt.resizable bk = true) :
+    (RefineMulti.MRel (World.step cfg (.withCap ty bk cl n) w).1 ⟨ms.vecs ++ [some ⟨ty, [], n, false, cl⟩], ms.next⟩ ∧
+        (World.step cfg (.withCap ty bk cl n) w).2 = .ok []) ∨
+    (∃ m, RefineMulti.MRel (World.step cfg (.withCap ty bk cl n) w).1 ⟨ms.vecs ++ [none], ms.next⟩ ∧
+        (World.step cfg (.withCap ty bk cl n) w).2 = .panic m) :=
+  RefineMulti.with_capacity_refines cfg w ms h ty bk cl n hr
+
+/-- **`with_capacity(n)` keeps its promise**: when `with_capacity(n)` returns, the new vector takes `n` pushes - none
+refused, none growing the storage: afterwards it shows exactly the `n` new items at capacity `n`, every other vector as
+it was. -/
+theorem with_capacity_then_pushes (cfg : Cfg) (w : World) (ms : RefineMulti.MSpec) (h : RefineMulti.MRel w ms) (ty : Nat)
+    (bk : Backend) (cl : Bool) (n : Nat) (hr : VecSt.resizable bk = true)
+    (hok : (World.step cfg (.withCap ty bk cl n) w).2 = .ok []) :
+    ∃ s', Refine.Rel (fun u => (World.step cfg (.withCap ty bk cl n) w).1.vecs[u]?) ms.vecs.length ty
+        (Refine.runOps cfg ms.vecs.length ty (World.step cfg (.withCap ty bk cl n) w).1 (List.replicate n .push)) s' ∧
+      s'.items = List.range' ms.next n ∧ s'.cap = n :=
+  RefineMulti.with_capacity_then_pushes cfg w ms h ty bk cl n hr hok
+
+/-- … and what follows is a life cycle like any other: a script `with_capacity(n)` followed by any life-cycle script is a
+life-cycle script of the abstract machine (`RefineMulti.AOp.withCap`), so everything `reserve_then_pushes` and
+`capacity_history_refines` say about a vector of capacity `n` applies to the new vector. -/
+theorem with_capacity_starts_a_life_cycle (cfg : Cfg) (ops : List RefineMulti.AOp) (w : World) (ms : RefineMulti.MSpec)
+    (h : RefineMulti.MRel w ms) (ty : Nat) (bk : Backend) (cl : Bool) (n : Nat)
+    (hsafe : RefineMulti.Safe cfg ms (.withCap ty bk cl n :: ops)) :
+    ∃ ms', RefineMulti.ASteps cfg ms (.withCap ty bk cl n :: ops) ms' ∧
+      RefineMulti.MRel (RefineMulti.arun cfg w (.withCap ty bk cl n :: ops)) ms' :=
+  RefineMulti.life_cycles_refine cfg _ w ms h hsafe
 
 end C10
 end AnyVec
